@@ -784,6 +784,13 @@ def enum_corpus(tier, seed):
         e = EnumDef("E", bits, list(spec_), "conditional")
         e.tag = f"conditional u{bits}: the same variant NAME declared under exclusive cfgs with different discriminants {spec_}"
         Es.append(e)
+    # discriminants carrying the suffix of an explicit #[repr] type (in range)
+    for (bits, ds, rp) in ((3, [0, 1, 7], "u8"), (8, [0, 200, 255], "u8"), (12, [5, 4095], "u16"), (2, [0, 1, 2, 3], "u8")):
+        e = EnumDef("E", bits, [(f"V{i}", d, None) for i, d in enumerate(ds)], "true" if len(ds) == (1 << bits) else None)
+        e.repr = rp
+        e.discr_text, e.discr_text_valid = {f"V{i}": f"{d}{rp}" for i, d in enumerate(ds) if i != 1}, True
+        e.tag = f"u{bits} with #[repr({rp})] and discriminants written with the {rp} suffix"
+        Es.append(e)
     # variant and type names that generated code might itself want to use unqualified
     for (nm, bits, spec_, ex) in (("E", 2, [("Ok", 0, None), ("Err", 1, None), ("None", 3, None)], None), ("E", 1, [("Some", 1, None), ("None", 0, None)], "true"),
                                   ("E", 3, [("Self_", 0, None), ("Result", 1, None), ("Option", 2, None), ("Default", 5, None), ("MAX", 7, None)], "false"),
@@ -2246,6 +2253,22 @@ def c10_candidates(tier, seed):
     # variants gated through cfg_attr (a compile error today; if a tree accepts them the enum must still be sound)
     for (bits, ds, cfg, ex) in ((2, [0, 1, 2, 3], [None, None, None, "off_attr"], "true"), (1, [0, 1], ["off_attr", None], "true"), (2, [0, 1, 3], [None, None, "off_attr"], None)):
         add1(bits, ds, ex, "cfg-attr-gated-variant", f"u{bits}: variant gated through #[cfg_attr(.., cfg(..))] {list(zip(ds, cfg))}, exhaustive={ex}", cfg=cfg)
+    # wide storage: exhaustive = true can never be satisfied; a few variants without it are fine
+    for N in (16, 31, 32, 33, 63, 64):
+        top = (1 << N) - 1
+        add1(N, [0, 1, top], "true", "one-value-missing", f"u{N}: exhaustive = true with three variants")
+        add1(N, [0, top], None, "few-variants-wide-storage", f"u{N}: two variants, exhaustive omitted")
+        add1(N, [top, 5, 0], "false", "few-variants-wide-storage", f"u{N}: three variants, exhaustive = false")
+        add1(N, [1, top], "conditional", "few-variants-wide-storage", f"u{N}: conditional with a gated variant", cfg=[None, "on"])
+    # discriminants spelled with a type suffix / a sign / substituted through macro_rules! and out of range
+    for (bits, ds, txt, rp, wrap, ex) in ((3, [0, 1, 200], {"V2": "200u8"}, "u8", False, None), (3, [0, 1, 2, 3, 4, 5, 6, 8], {"V7": "8u8", "V0": "0u8"}, "u8", False, "true"),
+                                          (2, [0, 3], {"V1": "-1"}, None, False, None), (4, [0, 15], {"V1": "-1"}, "i8", False, "false"),
+                                          (4, [0, 3, 16], {"V2": "16"}, None, True, None), (2, [0, 1, 2, 4], {"V0": "0", "V3": "4"}, None, True, "true"), (9, [1, 512], {"V1": "0x200"}, None, True, "false")):
+        vs = [(f"V{i}", d, None) for i, d in enumerate(ds)]
+        e = EnumDef("E", bits, vs, ex)
+        e.discr_text, e.repr, e.wrap_macro = dict(txt), rp, wrap
+        e.tag = f"u{bits}: discriminants {txt} (values {ds}){' passed through macro_rules!' if wrap else ''}, repr={rp}, exhaustive={ex}"
+        C.append((e, "unusual-discriminant-spelling-out-of-range"))
     # unsupported storage sizes
     add(65, [0, 1], None, "bad-storage-size", "u65 storage")
     add(0, [0], None, "bad-storage-size", "u0 storage")
